@@ -91,6 +91,25 @@ theorem reaching_runs_body {oob : IntKind → Num → Int} {sig : Sig} {args f :
     simp only [run, runRaw, shape_arity_checked, hb, hc, finish]
     cases body f' <;> simp
 
+/-- **The function's results are returned.** A non-variadic function called with as many arguments
+    as it has parameters, each fitting its parameter (an ECAL number for a numeric parameter, otherwise
+    a value of exactly the parameter's type), IS run — once, on values of exactly its parameter types —
+    and `Run` returns its converted results. (The bridge does not answer everything with an error.) -/
+theorem fitting_call_runs_function (oob : IntKind → Num → Int) (sig : Sig) (args : List Val)
+    (hv : sig.variadic = false) (hfit : AllFit sig.params args) (body : List Val → BodyOut) :
+    ∃ f, reaches oob sig args = some f ∧ TypesMatch f sig.params ∧
+      run shape oob (.fn sig body) args = finish shape sig (body f) := by
+  obtain ⟨f, hb, hty⟩ := buildArgs_of_fits (chk := true) (oob := oob) hfit
+  have hr : reaches oob sig args = some f := by
+    simp [reaches, hb, callCheck, hv, allAssignable_of_types hty]
+  exact ⟨f, hr, hty, reaching_runs_body hr body⟩
+
+example : ∃ f, reaches (fun _ _ => 0) ⟨[.int .int8, .str], false, [.bool]⟩ [.f64 (.fin 5 0), .str "s:61"] = some f :=
+  let ⟨f, h, _⟩ := fitting_call_runs_function (fun _ _ => 0) ⟨[.int .int8, .str], false, [.bool]⟩
+    [.f64 (.fin 5 0), .str "s:61"] rfl
+    ⟨.inl ⟨_, rfl, rfl⟩, .inr ⟨rfl, fun _ h => by cases h⟩, trivial⟩ (fun _ => .ret [])
+  ⟨f, h⟩
+
 /-! ## Wrong number of arguments -/
 
 /-- **Too many arguments** — more than `NumIn` — give a bridge error; the function is not run. -/
@@ -213,6 +232,13 @@ theorem numeric_result_exact :
   refine ⟨?_, fun _ => rfl, fun _ => rfl⟩
   intro k n h
   simp [convertResultNumber, Num.ofInt, h]
+
+/-- Every result of a numeric static type is delivered as an ECAL number (a float64), whatever
+    its size: no Go integer or float32 leaks into the ECAL program through a numerically typed result.
+    (`foreign` stands for values of non-primitive types only.) -/
+theorem numeric_result_is_number (t : Ty) (v : Val) (ht : t.isNumeric = true) (hv : v.ty = some t)
+    (hw : ∀ t' c, v ≠ .foreign t' c) : ∃ x, convertResultNumber t v = .f64 x := by
+  cases t <;> simp [Ty.isNumeric] at ht <;> cases v <;> simp_all [Val.ty, convertResultNumber]
 
 /-- Both directions end to end: for every integer kind `k` and every integer `n` in its range with
     |n| ≤ 2^53, a function `func(x k) k { return x }` called with the ECAL number `n` receives
